@@ -72,6 +72,14 @@ pub fn run_case(f: &[String]) -> String {
             let r = compile(&text(&f[1]), f[2].parse::<u32>().unwrap());
             format!("{}\t{}", hex(&r.bin), enc_text(&r.log))
         }
+        "compile_lex" => {
+            // compile_lex <src>: the pipeline of lib.rs compile() WITHOUT sutoton::convert -> <hex bytes> \t <log>
+            let mut song = Song::new();
+            let tokens = lexer::lex(&mut song, &text(&f[1]), 0);
+            runner::exec(&mut song, &tokens);
+            let bin = midi::generate(&mut song);
+            format!("{}\t{}", hex(&bin), enc_text(&song.get_logs_str()))
+        }
         "generate" => {
             // generate <timebase> <tracks: events '/' events ...>  ->  hex of midi::generate
             let mut song = Song::new();
